@@ -25,7 +25,9 @@ ADVERSARIAL = ['=A0', '=A1:A0', '=AAAA1', '=XFE1', '=ZZZZ1:A1', '=Nope!A1', "='N
                '=ROUND(1)', '=ROUNDUP(1,)', '=ROUNDDOWN(1)', '=CONCATENATE()', '=CONCATENATE("a")', '=AND()', '=OR(1)', '=MIN()', '=MAX(A1:B2)', '=AVERAGE("x")',
                '=SEARCH("a")', '=IFERROR(1)', '=IFERROR(1,2,3)', '=YEAR()', '=DAY(1,2)', '=EOMONTH(A1)', '=VLOOKUP(1,A1:B2,5)', '=INDEX(A1:B2,9)', '=ADDRESS(1,99999)',
                '=SUMIF(A1:B2,10,A:A)', '=SUMIF(A1:A2,1,B:B)', '=SUMIF(A:A,1,B2)', '=SUMIF(A1:A2,">0",B:C)', '=SUMIF(A:B,1,B2)', '=SUMIFS(A:A,B1:B2,1)', '=COUNTIFS(A:A,1,B1:B2,2)',
-               '=AVERAGEIFS(A1:A2,B:B,1)', '=VLOOKUP(1,A:B,2)', '=INDEX(A:B,1,1)', '=MATCH(1,A:A)', '=SUM(A:A,B1)', '=A:A+1', '=A:A%']
+               '=AVERAGEIFS(A1:A2,B:B,1)', '=VLOOKUP(1,A:B,2)', '=INDEX(A:B,1,1)', '=MATCH(1,A:A)', '=SUM(A:A,B1)', '=A:A+1', '=A:A%',
+               '=SUM(COLUMN())', '=MAX(1,COLUMN())', '=SUM(COLUMN(B1))', '=IF(COLUMN()>1,1,2)', '=COLUMN()&"x"', '=AND(COLUMN())', '=CONCATENATE(COLUMN(),COLUMN(A1))',
+               '=SUM(B:C3)', '=COUNT(B:C3)', '=B:C3', '=SUM(A2:B)', '=INDEX(B:C3,1,1)', '=SUMIF(B:B3,">1")']
 TITLES = ['S', 'Sheet 2', "it's", 'A1', 'SUM', 'Лист', 'x!y', '{0}', "quote'\"", 'a\\b', '1st', 'Data_2', '\U0001F4CA Report', '表', 'tab\there']
 CONSTANTS = [0, -1, 2 ** 70, 1.5, -0.0, 1e300, True, False, '', 'x', "it's", 'a\\', '{x}', '{titles}', 'tab\t', 'nl\n', 'eval(1)', 'é✓', "'''", '"""', '\\n']
 
